@@ -1,5 +1,5 @@
 (* One entry point for the harness: request (list Z) -> reply (list Z). *)
-From JP Require Import Base.Json Extract.Wire Extract.WireAst Model.Slice Spec.Slice Model.Ast Model.Eval Spec.Sem Spec.Compare Model.Tokens Model.Lex Model.PyFloat.
+From JP Require Import Base.Json Extract.Wire Extract.WireAst Model.Slice Spec.Slice Model.Ast Model.Eval Spec.Sem Spec.Compare Model.Tokens Model.Lex Model.PyFloat Model.Parse Model.Api.
 
 Definition iota_json (len : Z) : list json := map (fun k => JNum (NInt (Z.of_nat k))) (seq 0 (Z.to_nat len)).
 Definition enc_sel (r : list (Z * json)) : list Z := enc_list (fun p => fst p :: enc_json (snd p)) r.
@@ -50,10 +50,22 @@ Definition op_float (r : list Z) : list Z :=
                    end
   | None => bad_request end.
 
+(* [2; min; max; registry; text] -> compiled AST or error class + token index *)
+Definition op_compile (r : list Z) : list Z :=
+  match r with
+  | lo :: hi :: r0 =>
+    match dec_registry r0 with Some (rg, r1) =>
+    match dec_str r1 with Some (q, _) =>
+      enc_result enc_query (m_compile {| min_idx := lo; max_idx := hi; max_depth := 100; reg := rg; rx := fun _ _ _ => false |} q)
+    | None => bad_request end | None => bad_request end
+  | _ => bad_request
+  end.
+
 (* opcodes: model side 1..99, specification side 101..199 *)
 Definition dispatch (req : list Z) : list Z :=
   match req with
   | 1 :: r => op_tokenize r
+  | 2 :: r => op_compile r
   | 3 :: r => op_find r
   | 20 :: r => op_float r
   | 103 :: r => op_sem r
